@@ -171,6 +171,16 @@ def under_assumptions(S, node, extra=()):
     for e in extra:
         asm = b.AND(asm, e)
     lits = b.necessary_literals(asm)
+    # schematic guards: a guard established for the canonical element of a comprehension (`('I',)`)
+    # holds for every index, so it also decides its instances at other index terms
+    schem = [(a, pol) for a, pol in lits if mentions_I(a)]
+    if schem:
+        extra_l = []
+        for at in all_atoms(b, node):
+            for pat, pol in schem:
+                if at != pat and match_schematic(pat, at):
+                    extra_l.append((at, pol))
+        lits = lits + extra_l
     r = node
     for a, pol in lits:
         r = b.restrict(r, a, pol)
@@ -218,3 +228,40 @@ def keypair_parts(prog):
     if len(ski) == 1 and len(pki) == 1:
         return ski[0], pki[0]
     return None
+
+
+def mentions_I(t):
+    if t == ("I",):
+        return True
+    if isinstance(t, tuple):
+        return any(mentions_I(x) for x in t)
+    return False
+
+
+def match_schematic(pat, t, env=None):
+    """Structural match where every occurrence of ('I',) in `pat` may stand for one (consistent) term."""
+    if env is None:
+        env = {}
+    if pat == ("I",):
+        if "I" in env:
+            return env["I"] == t
+        env["I"] = t
+        return True
+    if isinstance(pat, tuple) and isinstance(t, tuple):
+        if len(pat) != len(t):
+            return False
+        return all(match_schematic(p, x, env) for p, x in zip(pat, t))
+    return pat == t
+
+
+def all_atoms(b, node, acc=None, seen=None):
+    if acc is None:
+        acc, seen = [], set()
+    for a in b.support(node):
+        if a in seen:
+            continue
+        seen.add(a)
+        acc.append(a)
+        if a[0] == "any" and a[1][0] == "B":
+            all_atoms(b, a[1][1], acc, seen)
+    return acc
